@@ -1,5 +1,5 @@
 PROP = dict(
-    level="fault_enumeration",
+    level="exploration",
     design_ref="DESIGN.md §3 C32",
     technique="rapid-generated tar import streams (hostile member names, member types, bodies, truncation, byte mutation) judged by a digest of "
               "the filesystem around and inside the snapshots directory; real Save-produced snapshots restored intact or under one generated "
